@@ -19,17 +19,17 @@ import (
 	"github.com/google/martian/v3/zzverif/vf"
 )
 
-type closedBody struct{ closed bool }
+type zzclosedBody struct{ closed bool }
 
-func (b *closedBody) Read(p []byte) (int, error) {
+func (b *zzclosedBody) Read(p []byte) (int, error) {
 	if b.closed {
 		return 0, errors.New("http: read on closed response body")
 	}
 	return 0, errors.New("original body must not be forwarded")
 }
-func (b *closedBody) Close() error { b.closed = true; return nil }
+func (b *zzclosedBody) Close() error { b.closed = true; return nil }
 
-func fsPath(p string) string {
+func zzfsPath(p string) string {
 	if vf.Symbolic() {
 		return p
 	}
@@ -37,7 +37,7 @@ func fsPath(p string) string {
 }
 
 // refClean resolves dot segments of an absolute path the textbook way.
-func refClean(p string) string {
+func zzrefClean(p string) string {
 	var out []string
 	for _, seg := range strings.Split(p, "/") {
 		switch seg {
@@ -53,7 +53,7 @@ func refClean(p string) string {
 	return "/" + strings.Join(out, "/")
 }
 
-func digit(name string) (string, int) {
+func zzdigit(name string) (string, int) {
 	d := vf.String(name, 1)
 	vf.Assume(d[0] >= '0' && d[0] <= '9')
 	return d, int(d[0] - '0')
@@ -67,7 +67,7 @@ func VerifC20Static() {
 	content := vf.Bytes("file", n)
 	vf.FSFile("/srv/www/a", content)
 	vf.FSFile("/srv/secret", []byte("SECRET"))
-	m := NewModifier(fsPath("/srv/www"))
+	m := NewModifier(zzfsPath("/srv/www"))
 
 	// request path: "/" followed by symbolic characters from {/, ., a}
 	k := vf.Choice("path-len", vf.Param("pathlen")+1)
@@ -89,8 +89,8 @@ func VerifC20Static() {
 	var segs []seg // range-kind 4: the two resolved ranges
 	switch kind {
 	case 1: // bytes=a-b
-		as, a := digit("range-a")
-		bs, b := digit("range-b")
+		as, a := zzdigit("range-a")
+		bs, b := zzdigit("range-b")
 		req.Header["Range"] = []string{"bytes=" + as + "-" + bs}
 		wantStart, wantEnd = a, b
 		if b >= n {
@@ -98,12 +98,12 @@ func VerifC20Static() {
 		}
 		satisfiable = a <= b && a < n
 	case 2: // bytes=a-
-		as, a := digit("range-a")
+		as, a := zzdigit("range-a")
 		req.Header["Range"] = []string{"bytes=" + as + "-"}
 		wantStart, wantEnd = a, n-1
 		satisfiable = a < n
 	case 3: // bytes=-s
-		ss, s := digit("range-s")
+		ss, s := zzdigit("range-s")
 		req.Header["Range"] = []string{"bytes=-" + ss}
 		if s > n {
 			s = n
@@ -113,8 +113,8 @@ func VerifC20Static() {
 	case 4: // bytes=a-b,c-d: one multipart part per range
 		h := "bytes="
 		for i, name := range []string{"range-a", "range-c"} {
-			as, a := digit(name)
-			bs, b := digit(name + "-last")
+			as, a := zzdigit(name)
+			bs, b := zzdigit(name + "-last")
 			if i > 0 {
 				h += ","
 			}
@@ -129,7 +129,7 @@ func VerifC20Static() {
 		}
 		req.Header["Range"] = []string{h}
 	}
-	ob := &closedBody{}
+	ob := &zzclosedBody{}
 	res := &http.Response{StatusCode: 200, Header: http.Header{}, Body: ob, ContentLength: 8, Request: req, Proto: "HTTP/1.1", ProtoMajor: 1, ProtoMinor: 1}
 
 	merr := m.ModifyResponse(res) // a Go panic in here is reported by the engine
@@ -137,9 +137,9 @@ func VerifC20Static() {
 	// containment: every path handed to the file system lies beneath the root
 	for _, p := range vf.FSOpened() {
 		under := p == "/srv/www" || strings.HasPrefix(p, "/srv/www/")
-		vf.Assert(under || isSystemFile(p), "opened-path-is-beneath-the-root")
+		vf.Assert(under || zzisSystemFile(p), "opened-path-is-beneath-the-root")
 	}
-	if refClean(path) != "/a" {
+	if zzrefClean(path) != "/a" {
 		vf.Assert(res.StatusCode == 404, "unknown-path-answers-404")
 		vf.Reach("404")
 		return
@@ -193,6 +193,6 @@ func VerifC20Static() {
 }
 
 // isSystemFile exempts the MIME tables the mime package looks for.
-func isSystemFile(p string) bool {
+func zzisSystemFile(p string) bool {
 	return strings.HasSuffix(p, "mime.types") || strings.HasSuffix(p, "/globs2") || strings.HasPrefix(p, "/usr/share/") || strings.HasPrefix(p, "/etc/")
 }
